@@ -133,6 +133,140 @@ func main() {
 			}
 		}
 	}
+	// functions and methods of the hand-written files by name (for read-only pointer arguments)
+	funcsByName := map[string][]*ast.FuncDecl{}
+	for _, ft := range files {
+		for _, d := range ft.f.Decls {
+			if fd, ok := d.(*ast.FuncDecl); ok && fd.Body != nil {
+				funcsByName[fd.Name.Name] = append(funcsByName[fd.Name.Name], fd)
+			}
+		}
+	}
+	// readOnlyParam: the i-th parameter of the only function of that name is used in reads only
+	// (indexed, dereferenced, field-selected, len/cap, ranged over): never a write target, never
+	// address-taken, never passed on, assigned, returned, captured or called through.
+	readOnlyParam := func(name string, i int) bool {
+		fds := funcsByName[name]
+		if len(fds) != 1 {
+			return false
+		}
+		fd := fds[0]
+		var pnames []string
+		for _, f := range fd.Type.Params.List {
+			if _, variadic := f.Type.(*ast.Ellipsis); variadic {
+				return false
+			}
+			if len(f.Names) == 0 {
+				pnames = append(pnames, "_")
+			}
+			for _, n := range f.Names {
+				pnames = append(pnames, n.Name)
+			}
+		}
+		if i >= len(pnames) || pnames[i] == "_" {
+			return false
+		}
+		pn := pnames[i]
+		written := map[ast.Node]bool{}
+		markChain := func(e ast.Expr) {
+			for {
+				written[e] = true
+				switch x := e.(type) {
+				case *ast.SelectorExpr:
+					e = x.X
+				case *ast.IndexExpr:
+					e = x.X
+				case *ast.StarExpr:
+					e = x.X
+				case *ast.ParenExpr:
+					e = x.X
+				case *ast.SliceExpr:
+					e = x.X
+				default:
+					return
+				}
+			}
+		}
+		ast.Inspect(fd.Body, func(n ast.Node) bool {
+			switch x := n.(type) {
+			case *ast.AssignStmt:
+				for _, l := range x.Lhs {
+					markChain(l)
+				}
+			case *ast.IncDecStmt:
+				markChain(x.X)
+			case *ast.UnaryExpr:
+				if x.Op == token.AND {
+					markChain(x.X)
+				}
+			case *ast.RangeStmt:
+				if x.Key != nil {
+					markChain(x.Key)
+				}
+				if x.Value != nil {
+					markChain(x.Value)
+				}
+			}
+			return true
+		})
+		ok := true
+		var st []ast.Node
+		ast.Inspect(fd.Body, func(n ast.Node) bool {
+			if n == nil {
+				st = st[:len(st)-1]
+				return true
+			}
+			var parent, grand ast.Node
+			if len(st) > 0 {
+				parent = st[len(st)-1]
+			}
+			if len(st) > 1 {
+				grand = st[len(st)-2]
+			}
+			st = append(st, n)
+			id, isId := n.(*ast.Ident)
+			if !isId || id.Name != pn {
+				return true
+			}
+			if written[n] {
+				ok = false
+				return true
+			}
+			switch p := parent.(type) {
+			case *ast.IndexExpr:
+				if p.X != ast.Expr(id) {
+					ok = false
+				}
+			case *ast.StarExpr:
+			case *ast.ParenExpr:
+				ok = false
+			case *ast.SelectorExpr:
+				if p.X != ast.Expr(id) {
+					break // a field or method called like the parameter
+				}
+				if c, isCall := grand.(*ast.CallExpr); isCall && c.Fun == ast.Expr(p) {
+					ok = false // a method call may write through the pointer
+				}
+			case *ast.RangeStmt:
+				if p.X != ast.Expr(id) {
+					ok = false
+				}
+			case *ast.CallExpr:
+				f, isF := p.Fun.(*ast.Ident)
+				if !(isF && (f.Name == "len" || f.Name == "cap") && len(p.Args) == 1 && p.Args[0] == ast.Expr(id)) {
+					ok = false
+				}
+			case *ast.KeyValueExpr:
+				if p.Value == ast.Expr(id) {
+					ok = false
+				}
+			default:
+				ok = false
+			}
+			return true
+		})
+		return ok
+	}
 	// scan one function body (or one package-level initialiser)
 	scan := func(pkg, file, fname string, recv, params *ast.FieldList, results *ast.FieldList, body ast.Node) {
 		local := map[string]bool{}
@@ -326,7 +460,28 @@ func main() {
 			case *ast.UnaryExpr:
 				if x.Op == token.AND {
 					if r := rootIdent(x.X); isPkgVar(r) {
-						assignLines = append(assignLines, fmt.Sprintf("(%s, %s, %s)", q(fname), q(text(x.X)), q("address-of")))
+						readonly := false
+						if c, isCall := parent.(*ast.CallExpr); isCall {
+							callee := ""
+							switch f := c.Fun.(type) {
+							case *ast.Ident:
+								if !local[f.Name] {
+									callee = f.Name
+								}
+							case *ast.SelectorExpr:
+								callee = f.Sel.Name
+							}
+							for i, a := range c.Args {
+								if a == ast.Expr(x) && callee != "" && readOnlyParam(callee, i) {
+									readonly = true
+								}
+							}
+						}
+						if readonly {
+							useLines = append(useLines, fmt.Sprintf("(%s, %s, %s)", q(fname), q(r), q("addr-readonly")))
+						} else {
+							assignLines = append(assignLines, fmt.Sprintf("(%s, %s, %s)", q(fname), q(text(x.X)), q("address-of")))
+						}
 					}
 				}
 			case *ast.CallExpr:
